@@ -73,6 +73,7 @@ def handlers : List (String × (Json → Except String Json)) := [
   ("C01.matmul_dense_dia", Qv.Drv.C01.matmulDenseDiaJ),
   ("C01.add_dia", Qv.Drv.C01.addDiaJ),
   ("C01.inner_dia", Qv.Drv.C01.innerDiaJ),
+  ("C01.isherm_dia", Qv.Drv.C01.ishermDiaJ),
   ("C01.inner_op_dia", Qv.Drv.C01.innerOpDiaJ),
   ("C01.dia_of_dense", Qv.Drv.C01.diaOfDenseJ)
 ]
